@@ -623,3 +623,54 @@ SCENARIOS = SCENARIOS + [
              F("onnxscript/_internal/autocast.py", "static_cast_inputs", "static_cast_inputs.get_type_info", "static_cast_inputs.cast_like", "cast_inputs"), kind="evaluation",
              trusted=["ir.schemas.OpSignature.from_op_schema (type constraints of the ONNX operator schemas)"]),
 ]
+
+
+def s_input_to_ir_value(ctx):
+    """BuilderBase._input_to_ir_value(value, like_type): values and None pass through; a Python literal is promoted with
+    the element type of its type sibling when that type is known, with the default type otherwise; when there IS a
+    sibling but its element type is not known at build time the promoted constant is wrapped in CastLike(constant,
+    sibling) so that it takes the sibling's type at run time (the builder's equivalent of the converter's CastLike)."""
+    import onnx_ir as ir
+    from onnxscript._internal import tape_builder as tb
+    I = Interp(ctx)
+    B = tb.BuilderBase
+    self = SObj(B, "builder")
+    what = ["value", "none", "literal"][ctx.choose(3, "operand")]
+    like_kind = ["no sibling", "sibling of known type", "sibling without type", "sibling whose type has no dtype"][ctx.choose(4, "type sibling")]
+    like = None
+    if like_kind != "no sibling":
+        like = SObj(ir.Value, "sibling")
+        if like_kind == "sibling of known type":
+            tp = SObj(ir.TensorType, "type")
+            tp.fields["dtype"] = ir.DataType.DOUBLE
+            like.fields["type"] = tp
+        elif like_kind == "sibling without type":
+            like.fields["type"] = None
+        else:
+            tp = SObj(ir.TensorType, "type")
+            tp.fields["dtype"] = None
+            like.fields["type"] = tp
+    promoted = SObj(ir.Value, "promoted")
+    calls = []
+    I.models[B._promote_constant] = lambda interp, slf, v, dt: (calls.append(("promote", v, dt)) or promoted)
+    cast = SObj(ir.Value, "castlike_out")
+    I.models[B.call_op] = lambda interp, slf, op, args, kwargs, **k: (calls.append(("op", op, list(args), dict(kwargs))) or cast)
+    I.models[B._get_default_opset_version] = lambda interp, slf, d: 21
+    v = {"value": SObj(ir.Value, "operand"), "none": None, "literal": 2.5}[what]
+    r = I.run_closure(I.closure_of(B._input_to_ir_value), [self, v] + ([like] if like is not None else []), {})
+    cl = "C12: 'the tensor it becomes has the same element type ... in a graph traced with the graph builder: the type of the sibling operand that shares its type constraint when there is one'"
+    if what != "literal":
+        ctx.check("C12.builder.input_to_ir_value.values_and_None_pass_through", r is v and not calls, cl)
+        return
+    want_dtype = ir.DataType.DOUBLE if like_kind == "sibling of known type" else None
+    ctx.check("C12.builder.input_to_ir_value.literal_promoted_with_the_known_sibling_type_else_default", calls[:1] == [("promote", 2.5, want_dtype)], cl)
+    if like_kind in ("sibling without type", "sibling whose type has no dtype"):
+        ctx.check("C12.builder.input_to_ir_value.unknown_sibling_type_is_matched_at_run_time_by_CastLike",
+                  len(calls) == 2 and calls[1][0] == "op" and calls[1][1] == "CastLike" and calls[1][2] == [promoted, like] and r is cast, cl)
+    else:
+        ctx.check("C12.builder.input_to_ir_value.no_cast_when_the_type_is_decided_at_build_time", len(calls) == 1 and r is promoted, cl)
+
+
+SCENARIOS = SCENARIOS + [
+    Scenario("C12.builder.input_to_ir_value", s_input_to_ir_value, F("onnxscript/_internal/tape_builder.py", "BuilderBase._input_to_ir_value")),
+]
